@@ -98,10 +98,25 @@ def run_machine(ctx, tag, maxlen, lvl, pks, workers):
     with open(tab) as f:
         table = json.load(f)
     seqs = []
+    buf = None
     for line in r.out.splitlines():
-        if line.startswith('<<"S", '):
-            v = tlaval.parse(line)
-            seqs.append((v[1], list(v[2]), v[3], v[4], [tuple(x) for x in v[5]]))
+        # TLC pretty-prints a long value over several lines ("<< "S",\n   ..."): collect until the brackets balance
+        if buf is None and (line.startswith('<<"S",') or line.startswith('<< "S",')):
+            buf = []
+        if buf is not None:
+            buf.append(line)
+            txt = ' '.join(buf)
+            if txt.count('<<') == txt.count('>>'):
+                v = tlaval.parse(txt)
+                seqs.append((v[1], list(v[2]), v[3], v[4], [tuple(x) for x in v[5]]))
+                buf = None
+    # every terminal state must have been emitted and parsed: one per initial state (= per sequence)
+    import re
+    m = re.search(r'Finished computing initial states: (\d+) distinct state', r.out)
+    n_machine = sum(1 for q in seqs if q[0] != 'name')
+    if buf is not None or not m or int(m.group(1)) != n_machine:
+        raise tlc.MachineryError('TlvModelC07 %s: %s initial states but %d emitted terminal states parsed' % (
+            tag, m.group(1) if m else '?', n_machine))
     return table, seqs
 
 
@@ -202,6 +217,20 @@ def structural_edits(rng, pk, wire, schema, outer_t, n):
         i = path[0]
         return tr[:i] + [(tr[i][0], rebuild(tr[i][1], path[1:], new))] + tr[i + 1:]
     lv = list(levels(tree))
+    # systematic part, at EVERY level of the tree (also inside SignatureInfo, MetaInfo, ForwardingHint, Nack, names):
+    # each element duplicated in place, each adjacent pair transposed, each element deleted, an unknown critical
+    # and an unknown non-critical element inserted at each position
+    for path, lvl in lv:
+        cand = []
+        for i in range(len(lvl)):
+            cand.append(lvl[:i + 1] + [lvl[i]] + lvl[i + 1:])
+            cand.append(lvl[:i] + lvl[i + 1:])
+            if i + 1 < len(lvl):
+                cand.append(lvl[:i] + [lvl[i + 1], lvl[i]] + lvl[i + 2:])
+        for i in range(len(lvl) + 1):
+            cand.append(lvl[:i] + [(127, b'\x01')] + lvl[i:])
+            cand.append(lvl[:i] + [(126, b'\x02')] + lvl[i:])
+        out += [stl.write_tlv([(t0, rebuild(tree, path, new))]) for new in cand]
     for _ in range(n):
         path, lvl = rng.choice(lv)
         op = rng.choice(['del', 'dup', 'swap', 'insnc', 'insuc', 'len+', 'len-', 'rawlen'])
@@ -362,7 +391,9 @@ def run(ctx):
     except Exception as ex:  # noqa
         # an implementation broken badly enough to derail the driver after violations were already recorded:
         # report those violations rather than a machinery failure
-        if not ctx.violations:
+        from harness import core as _core
+        known = _core.load_known(ctx.prop)
+        if not any(_core.match_known(known, v['sig']) is None for v in ctx.violations):
             raise
         ctx.note('driver stopped by %s after %d violation signature(s)' % (type(ex).__name__, len(ctx.violations)))
 
@@ -426,7 +457,8 @@ def _run(ctx):
         verdicts = judge(ctx, [{k: r[k] for k in ('id', 'pk', 'outer', 'input', 'got', 'out')} for r in recs], 'c07-judge-%s' % ctx.tier)
         for rid, tags in verdicts.items():
             r = recs[rid - 1]
-            want, why, got = tags[0].split('/')
+            want, rest = tags[0].split('/', 1)
+            why, got = rest.rsplit('/', 1)
             sig = 'C07/%s/accept/fields-differ' % FN[r['pk']] if why == 'fields-differ' else \
                 'C07/%s/%s%s/%s' % (FN[r['pk']], want, ':' + why if why else '', got)
             ctx.violation(sig, '%s(%s): reference %s%s, implementation %s' % (FN[r['pk']], r['wire'][:200], want, ' (%s)' % why if why else '', got),
